@@ -34,14 +34,14 @@ BASEC = {'A1': 2, 'B1': 3, 'C1': 5, 'D1': 7, 'E1': 11, 'F1': 13, 'A2': 'a', 'B2'
 
 # function -> (allowed argument counts, argument texts by position; the last one is repeated for higher arities)
 ARITY = {
-    'IF': ({2, 3}, ['A1>1', '"y"', '"n"', '1']), 'IFS': (set(range(1, 8)), ['A1>9', '1', 'A1>1', '2', 'TRUE', '3', '4']),
+    'IF': ({2, 3}, ['A1>1', '"y"', '"n"', '1']), 'IFS': ({2, 4, 6}, ['A1>9', '1', 'A1>1', '2', 'TRUE', '3', '4']),
     'IFERROR': ({2}, ['A1/0', '7', '1']), 'SUM': (set(range(1, 8)), ['A1:C1', '1', 'A1', '2', '3', '4', '5']),
     'AVERAGE': (set(range(1, 8)), ['A1:C1', '1', 'A1', '2', '3', '4', '5']), 'MIN': (set(range(1, 8)), ['A1:C1', '1', 'A1', '2', '3', '4', '5']),
     'MAX': (set(range(1, 8)), ['A1:C1', '1', 'A1', '2', '3', '4', '5']), 'COUNT': (set(range(1, 8)), ['A1:C1', '1', 'A1', '2', '3', '4', '5']),
     'COUNTBLANK': (set(range(1, 8)), ['A1:C1', 'A2:C2', 'A1', 'B1', 'C1', 'D1', 'E1']), 'AND': (set(range(1, 8)), ['A1>1', 'TRUE', '1', '1', '1', '1', '1']),
     'OR': (set(range(1, 8)), ['A1>1', 'FALSE', '0', '0', '0', '0', '0']), 'ROUND': ({2}, ['A1/3', '2', '1']), 'ROUNDUP': ({1, 2}, ['A1/3', '2', '1']),
     'ROUNDDOWN': ({1, 2}, ['A1/3', '2', '1']), 'VLOOKUP': ({3, 4}, ['A4', 'A3:B5', '2', 'FALSE', '1']), 'MATCH': ({2, 3}, ['A4', 'A3:A5', '0', '1']),
-    'XMATCH': ({2, 3, 4}, ['A4', 'A3:A5', '0', '1', '1']), 'INDEX': ({2, 3, 4}, ['A3:B5', '2', '2', '1', '1']), 'ADDRESS': ({2, 3, 4, 5, 6, 7}, ['A1', 'B1', '1', 'TRUE', '"S"', '1', '1']),
+    'XMATCH': ({2, 3, 4}, ['A4', 'A3:A5', '0', '1', '1']), 'INDEX': ({2, 3, 4}, ['A3:B5', '2', '2', '1', '1']), 'ADDRESS': ({2, 3, 4, 5}, ['A1', 'B1', '1', 'TRUE', '"S"', '1', '1']),
     'COLUMN': ({0, 1}, ['B3', '1']), 'DATE': ({3}, ['2024', 'A1', 'B1', '1']), 'YEAR': ({1}, ['DATE(2024,1,2)', '1']), 'MONTH': ({1}, ['DATE(2024,1,2)', '1']),
     'DAY': ({1}, ['DATE(2024,1,2)', '1']), 'EDATE': ({2}, ['DATE(2024,1,31)', '1', '1']), 'EOMONTH': ({2}, ['DATE(2024,1,31)', '1', '1']),
     'DATEDIF': ({3}, ['DATE(2024,1,31)', 'DATE(2024,3,1)', '"D"', '1']), 'NETWORKDAYS': ({2, 3}, ['DATE(2024,1,1)', 'DATE(2024,1,31)', 'A3:A5', '1']),
